@@ -573,8 +573,14 @@ def rename_map(old_text, new_text, body_off=0):
             prev = a[i1 + k - 1] if i1 + k > 0 else ""
             if prev in (".", ":"):
                 continue
+            # a macro name is not a local (`write!` -> `writeln!`)
+            if (i1 + k + 1 < len(a) and a[i1 + k + 1] == "!") or (j1 + k + 1 < len(b) and b[j1 + k + 1] == "!"):
+                continue
             occ.setdefault(o, {}).setdefault(scope_of(tb[j1 + k][1]), set()).add(n)
-    sa, sb = set(a), set(b)
+    # occurrences as a method / field / path segment (`.key()`, `Self::key`) do not count as uses of a local of that name
+    def free_names(toks):
+        return {t for i, t in enumerate(toks) if not (i > 0 and toks[i - 1] in (".", ":"))}
+    sa, sb = free_names(a), free_names(b)
     base, scoped = {}, {}
     used_new = {}
     for o, by_scope in occ.items():
@@ -1224,6 +1230,13 @@ def generate(template_path, flavour, repo="/repo", vacuity=False, rules=None, ba
             body = re.sub(r"\bHashSet::(default|new)\(\)", r"HashSet::<_, std::hash::RandomState>::\1()", body)
             body = re.sub(r"\bHashMap::(default|new)\(\)", r"HashMap::<_, _, std::hash::RandomState>::\1()", body)
             stats["R13c"] = stats.get("R13c", 0) + n13
+        # R13c also for the imported names: the files import ahash's aliases (fixed hasher), the templates std's tables
+        # (hasher parameter free), so a bare `HashMap::default()` / `HashSet::default()` needs the hasher spelled out
+        n13d = len(re.findall(r"(?<![\w:])Hash(?:Set|Map)::default\(\)", mask(body)))
+        if n13d:
+            body = re.sub(r"(?<![\w:])HashSet::default\(\)", "HashSet::<_, std::hash::RandomState>::default()", body)
+            body = re.sub(r"(?<![\w:])HashMap::default\(\)", "HashMap::<_, _, std::hash::RandomState>::default()", body)
+            stats["R13c"] = stats.get("R13c", 0) + n13d
         # R17: `g[&k]` (Index<&K> of the Graph container; slices are never indexed by reference) -> g.index(&k)
         rx17 = re.compile(r"\b([A-Za-z_]\w*)\[\s*&\s*([A-Za-z_][\w\.]*)\s*\]")
         n17 = len(rx17.findall(mask(body)))
